@@ -197,6 +197,37 @@ def nt_checked(case):
     return all(c in ALPHA for c in s)  # invalid-or-edited string that reaches the checksum comparison
 
 
+def check_fuzz(case, ctx):
+    """Byte-level oracle: structured (payload + mutation) or raw string over alphabet + look-alikes."""
+    h = _impl()
+    data = case["data"]
+    if len(data) >= 3 and data[0] & 1:
+        check_checked({"payload": data[3:], "mut": [KINDS[data[1] % len(KINDS)], data[2], data[0] >> 1]}, ctx)
+        return
+    s = "".join((ALPHA + LOOKALIKE)[b % 62] for b in data[1:])
+    want = b58.decode_check(s)
+    st_, got = call(h.decode_base58_checksum, s)
+    if want is None:
+        if st_ == "ok":
+            raise Violation("C10/fuzz/accepted-invalid", "decode_base58_checksum(%r) returned %r" % (s[:60], got))
+    elif st_ == "exc" or got != want:
+        raise Violation("C10/fuzz/valid-differs", "decode_base58_checksum(%r) -> %r, expected %s" % (s[:60], got, want.hex()))
+    try:
+        wd = b58.decode(s)
+    except ValueError:
+        wd = None
+    st_, got = call(h.decode_base58, s)
+    if wd is None:
+        if st_ == "ok":
+            raise Violation("C10/fuzz/bad-character-accepted", "decode_base58(%r) returned %r" % (s[:60], got))
+    elif s and (st_ == "exc" or got != wd):
+        raise Violation("C10/fuzz/decode-differs", "decode_base58(%r) -> %r, expected %s" % (s[:60], got, wd.hex()))
+
+
+FUZZ_CORPUS = [b"\x00" + b58.encode_check(b"\x00" + bytes(range(20))).encode(), b"\x01\x00\x00" + bytes(range(21)),
+               b"\x03\x01\x05" + b"\x80" + bytes(range(32)) + b"\x01", b"\x05\x06\x07" + bytes(78)]
+
+
 def clauses():
     return [
         Clause("bytes", check_bytes,
@@ -222,4 +253,12 @@ def clauses():
                enum_desc="6 payload shapes x {valid, single-sha, 4 checksum bytes x 4 xor values, "
                          "truncations 0..3, decoded lengths 0..4}",
                n={"quick": 12000, "thorough": 600000}),
+        Clause("fuzz-decode", check_fuzz,
+               "raw bytes decoded either into (payload, mutation) or into a string over the alphabet plus look-alikes; "
+               "hypothesis st.binary in every tier and atheris/libFuzzer campaigns with the reference decoder as "
+               "in-target oracle", gen=lambda tier: st.fixed_dictionaries({"data": st.binary(max_size=90)}),
+               nontrivial=lambda c: len(c["data"]) >= 5,
+               n={"quick": 3000, "thorough": 100000}, shards={"quick": 2, "thorough": 8},
+               fuzz={"runs": {"quick": 20000, "thorough": 800000}, "campaigns": {"quick": 2, "thorough": 8},
+                     "max_len": 140, "corpus": FUZZ_CORPUS}),
     ]
